@@ -312,3 +312,51 @@ theorem mse_eq_zero_iff (r c : List ℝ) (hl : r.length = c.length) (hne : r ≠
 end metrics
 
 end Scico.FuncEval
+
+namespace Scico.FuncEval
+
+/-! ### `ProximalAverage` -/
+section proxavg
+
+theorem foldl_add_eq_sum (l : List ℝ) (a : ℝ) : l.foldl (· + ·) a = a + l.sum := by
+  induction l generalizing a with
+  | nil => simp
+  | cons x l ih => simp only [List.foldl_cons, ih, List.sum_cons]; ring
+
+theorem sum_map_div (l : List ℝ) (s : ℝ) : (l.map (fun a => a / s)).sum = l.sum / s := by
+  induction l with
+  | nil => simp
+  | cons x l ih => simp only [List.map_cons, List.sum_cons, ih]; ring
+
+/-- the weights `ProximalAverage.__init__` stores sum to one: the default `1/N` (for `N ≥ 1`
+    functionals), and given weights with a non-zero sum (kept as given when they already sum to one,
+    divided by their sum otherwise) -/
+theorem proxAvgWeights_sum_one (n : Nat) (hn : 0 < n) (al : List ℝ) (hs : al.sum ≠ 0) :
+    (proxAvgWeights (n : ℝ) none n).sum = 1 ∧ (proxAvgWeights (n : ℝ) none n).length = n ∧
+    (proxAvgWeights (n : ℝ) (some al) n).sum = 1 ∧ (proxAvgWeights (n : ℝ) (some al) n).length = al.length := by
+  have hn' : (n : ℝ) ≠ 0 := by exact_mod_cast hn.ne'
+  refine ⟨?_, by simp [proxAvgWeights], ?_, ?_⟩
+  · simp only [proxAvgWeights, List.sum_replicate, nsmul_eq_mul]
+    field_simp
+  · simp only [proxAvgWeights, foldl_add_eq_sum, zero_add]
+    by_cases h1 : isZero (al.sum - 1) = true
+    · rw [if_pos h1]
+      simp only [isZero, Bool.and_eq_true, Bool.not_eq_true', decide_eq_false_iff_not, not_lt] at h1
+      linarith [h1.1, h1.2]
+    · rw [if_neg h1, sum_map_div, div_self hs]
+  · simp only [proxAvgWeights]
+    split <;> simp
+
+/-- `ProximalAverage.__call__` without the infinity filter is the weighted sum `Σ α_i f_i(x)` -/
+theorem proxAvgEval_sum (isInf : ℝ → Bool) (ws vals : List ℝ) :
+    proxAvgEval isInf false ws vals = (List.zipWith (· * ·) ws vals).sum := by
+  simp [proxAvgEval, foldl_add_eq_sum]
+
+/-- with the filter, entries flagged infinite contribute `0` -/
+theorem proxAvgEval_filter (isInf : ℝ → Bool) (ws vals : List ℝ) :
+    proxAvgEval isInf true ws vals = ((List.zipWith (· * ·) ws vals).map (fun a => if isInf a then 0 else a)).sum := by
+  simp [proxAvgEval, foldl_add_eq_sum]
+
+end proxavg
+
+end Scico.FuncEval
